@@ -14,6 +14,8 @@ def run(ctx):
                           mutate_pl=2, orphan=1),
         walk_limit=250 if quick else None,
         curves=("syn1", "syn2", "rec1"))
+    if not quick:
+        curve_check.repo_test_traces(ctx, "C06_")
     ctx.assumptions += [
         "data columns are compared by sha256 over force, tip position, "
         "height (measured), height (piezo), segment, time and the set of "
